@@ -471,6 +471,7 @@ func scenarioUpdate(c *vrun.Ctx) {
 					before := snapshot(cfg)
 					fileBefore, _ := os.ReadFile(configPath.Path)
 					callsBefore := len(pr.calls)
+					restartBefore := IsRestartNeeded()
 					st, err := UpdatePartialFromConfig(cfg, u.d)
 					vsched.Quiesce()
 					after := snapshot(cfg)
@@ -495,6 +496,10 @@ func scenarioUpdate(c *vrun.Ctx) {
 						}
 						if string(fileBefore) != string(fileAfter) {
 							problem, kind = fmt.Sprintf("step %d: update %s was rejected but the file on disk changed", step, u.name), "rejected-update-changed-file/"+u.class
+							return
+						}
+						if IsRestartNeeded() != restartBefore {
+							problem, kind = fmt.Sprintf("step %d: update %s was rejected (%v) but the process now reports that a restart is needed", step, u.name, err), "rejected-update-set-restart-flag/"+u.class
 							return
 						}
 						continue
@@ -735,4 +740,116 @@ func scenarioReaderSched(c *vrun.Ctx) {
 			}
 		}})
 	}
+}
+
+func init() { vrun.Register("config/doc-shapes", scenarioDocShapes) }
+
+// scenarioDocShapes (C16, C18): every JSON value shape at every position of an update document
+// (each section and each property of the default configuration, plus unknown keys at every level):
+// the update is accepted or rejected with an error, never with a panic; a rejected one changes
+// neither the settings nor the file.
+func scenarioDocShapes(c *vrun.Ctx) {
+	base := freshConfig()
+	raw, _ := json.Marshal(base)
+	var tree map[string]any
+	json.Unmarshal(raw, &tree)
+	var sections, props []string
+	var walk func(m map[string]any, prefix string)
+	walk = func(m map[string]any, prefix string) {
+		keys := make([]string, 0, len(m))
+		for k := range m {
+			keys = append(keys, k)
+		}
+		sort.Strings(keys)
+		for _, k := range keys {
+			p := k
+			if prefix != "" {
+				p = prefix + "." + k
+			}
+			if sub, ok := m[k].(map[string]any); ok {
+				sections = append(sections, p)
+				walk(sub, p)
+			} else {
+				props = append(props, p)
+			}
+		}
+	}
+	walk(tree, "")
+	var positions []string
+	positions = append(positions, sections...)
+	positions = append(positions, props...)
+	for _, s := range sections {
+		positions = append(positions, s+".no_such_key")
+	}
+	positions = append(positions, "no_such_section", "no_such_section.x")
+	shapes := []string{`null`, `true`, `0`, `-1`, `1.5`, `123456789012345678901234567890`, `""`, `"x"`, `[]`, `[null]`, `{}`, `{"a":1}`, `{"a":null}`, `[{}]`}
+	for _, pos := range positions {
+		for _, sh := range shapes {
+			c.Case()
+			var val any
+			dec := json.NewDecoder(strings.NewReader(sh))
+			if err := dec.Decode(&val); err != nil {
+				panic(err)
+			}
+			desc := pos + " = " + sh
+			var pan any
+			var uerr error
+			var before, after map[string]string
+			var fileBefore, fileAfter []byte
+			ex := run(func() {
+				cfg := freshConfig()
+				before = snapshot(cfg)
+				fileBefore, _ = os.ReadFile(configPath.Path)
+				func() {
+					defer func() { pan = recover() }()
+					_, uerr = UpdatePartialFromConfig(cfg, doc(pos, val))
+				}()
+				vsched.Quiesce()
+				after = snapshot(cfg)
+				fileAfter, _ = os.ReadFile(configPath.Path)
+			})
+			c.Outcome(fmt.Sprintf("%s:%v:%v", sh, uerr != nil, pan != nil))
+			if pan != nil || ex.Status != "complete" {
+				c.SetCase(desc)
+				c.Violation("C16/config/update-panics/"+shapeClass(sh)+"/"+positionClass(pos, sections), fmt.Sprintf("UpdatePartialFromConfig panics for the document {%s}: %v %s %s", desc, pan, ex.Status, ex.PanicVal), nil)
+				continue
+			}
+			if uerr != nil {
+				if d := diffSnap(before, after); len(d) > 0 || string(fileBefore) != string(fileAfter) {
+					c.SetCase(desc)
+					c.Violation("C18/config/rejected-shape-changed-settings/"+shapeClass(sh), fmt.Sprintf("the document {%s} was rejected (%v) but changed %v (file changed: %v)", desc, uerr, d, string(fileBefore) != string(fileAfter)), nil)
+				}
+			}
+		}
+	}
+	c.Res.Bounds["positions"] = len(positions)
+	c.Res.Bounds["value_shapes"] = shapes
+}
+
+func shapeClass(sh string) string {
+	switch sh[0] {
+	case 'n':
+		return "null"
+	case '[':
+		return "array"
+	case '{':
+		return "object"
+	case '"':
+		return "string"
+	case 't':
+		return "bool"
+	}
+	return "number"
+}
+
+func positionClass(pos string, sections []string) string {
+	for _, s := range sections {
+		if s == pos {
+			return "section"
+		}
+	}
+	if strings.Contains(pos, "no_such") {
+		return "unknown-key"
+	}
+	return "property"
 }
